@@ -24,6 +24,10 @@ import (
 func Xfer(bal interop.Hash160, from, to interop.Hash160, amount int) bool {
 	return contract.Call(bal, "transfer", contract.All, from, to, amount, nil).(bool)
 }
+
+func Tick(bal interop.Hash160, epoch int) {
+	contract.Call(bal, "newEpoch", contract.All, epoch)
+}
 `
 
 type lockRec struct {
@@ -77,6 +81,7 @@ type balOp struct {
 	until  int64  // relative to the current epoch, for lock
 	signer string // C, from, to, S, from+C, nobody
 	de     int64  // epoch delta for tick
+	via    string // "Kc": the call is forwarded by the probe contract
 }
 
 type BalDriver struct {
@@ -238,6 +243,8 @@ func NewBalDriver(mode string) *BalDriver {
 			balOp{kind: "transferX", from: "A", to: "B", amt: bigS("3"), signer: "V"}, balOp{kind: "burn", from: "A", amt: bigS("3"), signer: "V"},
 			balOp{kind: "lock", from: "A", to: "Lnext", amt: bigS("3"), until: 1, signer: "V"}, balOp{kind: "mint", to: "A", amt: bigS("5"), signer: "V"},
 			balOp{kind: "balEpochAhead", signer: "V"}, balOp{kind: "tick", signer: "V", de: 1},
+			// ... and through a forwarding contract: by a stranger, by the holder, and by the Alphabet itself
+			balOp{kind: "balEpochAhead", signer: "S", via: "Kc"}, balOp{kind: "balEpochAhead", signer: "A", via: "Kc"}, balOp{kind: "balEpochAhead", signer: "C", via: "Kc"},
 			balOp{kind: "transfer", from: "A", to: "B", amt: bigS("3"), signer: "M"},
 			// a lock account is nobody's to spend: not its parent's, not a stranger's
 			balOp{kind: "transfer", from: "L1", to: "A", amt: bigS("3"), signer: "to"},
@@ -331,6 +338,9 @@ func (d *BalDriver) OpName(n *Node, i int) string {
 	case "balEpochPast":
 		return fmt.Sprintf("balance.newEpoch(%d) by %s", m.epoch-1, o.signer)
 	case "balEpochAhead":
+		if o.via != "" {
+			return fmt.Sprintf("%s calls balance.newEpoch(%d) signed by %s", o.via, m.epoch+2, o.signer)
+		}
 		return fmt.Sprintf("balance.newEpoch(%d) by %s", m.epoch+2, o.signer)
 	case "lock":
 		return fmt.Sprintf("lock(%s->%s,%s,until=%d) by %s", f, t, o.amt, d.untilOf(m, o), o.signer)
@@ -549,6 +559,9 @@ func (d *BalDriver) Step(x *Exec, n *Node, i int) StepResult {
 			e += 2
 		}
 		scr = Script(balH, "newEpoch", e)
+		if o.via == "Kc" {
+			scr = Script(w.Contracts["balprobe"].Hash, "tick", balH, e) // the same call forwarded by a contract anybody can deploy
+		}
 		if !alpha {
 			expHalt = false
 		} else {
